@@ -266,6 +266,10 @@ class HTMLUnicodeInputStream(object):
             # We have no more data, bye-bye stream
             return False
 
+        if len(data) == 1 and (data == "\r" or 0xD800 <= ord(data) <= 0xDBFF):
+            # A lone CR or lead surrogate: what follows decides what it means
+            data += self.dataStream.read(1)
+
         if len(data) > 1:
             lastv = ord(data[-1])
             if lastv == 0x0D or 0xD800 <= lastv <= 0xDBFF:
